@@ -46,7 +46,7 @@ def arg_parser_init():
                         default="tlexport/pcaps_und_keylogs/quic_pcaps/all_ciphersuites.pcapng")
     parser.add_argument("-o", "--outfile", help="path of output file", default="out.pcapng")
     parser.add_argument("-s", "--sslkeylog", help="path to sslkeylogfile",
-                        default="tlexport/pcaps_und_keylogs/quic_pcaps/all_ciphersuites.log")
+                        default=None)
     # default False due to checksum offloading producing wrong checksums in Packet Capture
     parser.add_argument("-c", "--checksumTest", help="enable for checking tcp Checksums",
                         action=argparse.BooleanOptionalAction, default=False)
